@@ -161,12 +161,20 @@ theorem exec_vis (x : Ident) (h : Exec s σ o σ') :
       have p1 := (pass_or_gen x b).1 hw.1.1.1; have p2 := (pass_or_gen x hs).2 hw.1.2 hw.1.1.2; have p3 := (pass_or_gen x e).1 hw.2
       simp only [Vis, InvN, InvS, G1, GA1, gen, pass, genAt, passAt] at *
       grind
-  | @hMatch ty σ nm σ2 hb o σ3 rest _ _ _ ihty ihnm ihhb =>
+  | @hMatch ty σ nm σ2 hb o σ3 rest _ _ _ hns ihty ihnm ihhb =>
       refine ⟨by simp [wf], fun hw => ?_⟩
       simp only [wf.wfH, Bool.and_eq_true] at hw
       have gn := ihnm.1 hw.1.1.2; have gb := ihhb.1 hw.1.2
       have p1 := (pass_or_gen x ty).1 hw.1.1.1; have p2 := (pass_or_gen x nm).1 hw.1.1.2; have p3 := (pass_or_gen x hb).1 hw.1.2
       have hdel := B_del nm σ3 x
+      clear ihty ihnm ihhb
+      simp only [Vis, InvN, InvS, G1, GA1, gen, pass, genAt, passAt] at *
+      grind
+  | @hMatchS ty σ nm σ2 hb r σ3 rest _ _ _ ihty ihnm ihhb =>
+      refine ⟨by simp [wf], fun hw => ?_⟩
+      simp only [wf.wfH, Bool.and_eq_true] at hw
+      have gn := ihnm.1 hw.1.1.2; have gb := ihhb.1 hw.1.2
+      have p1 := (pass_or_gen x ty).1 hw.1.1.1; have p2 := (pass_or_gen x nm).1 hw.1.1.2; have p3 := (pass_or_gen x hb).1 hw.1.2
       clear ihty ihnm ihhb
       simp only [Vis, InvN, InvS, G1, GA1, gen, pass, genAt, passAt] at *
       grind
